@@ -97,8 +97,9 @@ def memo_coherence(rep, r6, m, api, S):
             if n0["ref"].get("id") in local_statics and not path:
                 return local_statics[n0["ref"]["id"]]
             gk = m.global_key(f.unit, f, n0["ref"])
-            if gk is not None and gk in S and path and m.globals[gk].local_to is None:
-                return "%s.%s" % (m.globals[gk].name, ".".join(reversed(path)))
+            if gk is not None and gk in S and m.globals[gk].local_to is None and \
+                    (path or (m.rel(m.globals[gk].file) or "").startswith(("src/cmb_random", "include/cmb_random"))):
+                return ".".join([m.globals[gk].name] + list(reversed(path)))
             return None
         params = {p_["name"] for p_ in f.params}
 
@@ -126,6 +127,13 @@ def memo_coherence(rep, r6, m, api, S):
             while c0["kind"] == "UnaryOperator" and c0.get("opcode") == "!":
                 c0, neg = strip(kids(c0)[0], casts=True), not neg
             exact = c0["kind"] == "BinaryOperator" and ((c0.get("opcode") == "!=" and not neg) or (c0.get("opcode") == "==" and neg))
+            miss_block = kids(x)[1]
+            if not exact and c0["kind"] == "BinaryOperator" and len(kids(x)) > 2 and \
+                    ((c0.get("opcode") == "==" and not neg) or (c0.get("opcode") == "!=" and neg)) and \
+                    not any(y["kind"] in ("BinaryOperator", "CompoundAssignOperator", "CallExpr", "ReturnStmt") for y in walk(kids(x)[1])):
+                # `if (param == key) { nothing } else { recompute }`: the miss branch is the else
+                exact = True
+                miss_block = kids(x)[2]
             key = par = None
             if exact:
                 sides = kids(c0)
@@ -152,7 +160,7 @@ def memo_coherence(rep, r6, m, api, S):
                                 % (f.name, kname, render(kids(x)[0])[:100]), where=m.rel(loc(x)))
                     r6.fail()
                 continue
-            block = kids(x)[1]
+            block = miss_block
             stmts = kids(block) if block["kind"] == "CompoundStmt" else [block]
             nmemo += 1
             values = sorted({c_ for c_ in cells_written(block) if c_ != key})
@@ -257,6 +265,23 @@ def rules(rep, m):
                   "four state words each from one splitmix64() call, then discards exactly 20 generator outputs", floor=1)
     cx = FuncCtx(m, init)
     seed = init.params[0]["name"]
+    # where the mixer keeps its state: the one non-local object that splitmix64 stores to (a global, or a member of one)
+    MIX = "splitmix_state"
+    mixf = m.funcs.get(m.resolve(init.unit, "splitmix64"))
+    if mixf is None:
+        raise AnalysisBroken("R-C15-3: no function named splitmix64 (the seed mixer) in the seeding unit")
+    mxx = FuncCtx(m, mixf)
+    tg = []
+    for l_, r_, k_, n_ in inv.stores(mixf):
+        l0 = strip(l_, casts=True)
+        b0 = l0
+        while b0["kind"] == "MemberExpr" and not b0.get("isArrow"):
+            b0 = strip(kids(b0)[0], casts=True)
+        if b0["kind"] == "DeclRefExpr" and any(g_.split("@")[0] == b0["ref"]["name"] for g_ in m.globals):
+            tg.append(mxx.canon(l_))
+    if len(set(tg)) == 1:
+        MIX = tg[0]
+    MIXG = MIX.split(".")[0].split("->")[0]
     # engine XS: abstract execution of the seeding routine - loops unrolled, local arrays and pointers followed, the mixer
     # modelled as "the k-th output since it was seeded with s"
     from ..engines import xs as XS
@@ -267,10 +292,10 @@ def rules(rep, m):
             if nm == "splitmix_initialize":
                 st_mix["seeded"] = args[0] if args else None
                 st_mix["k"] = 0
-                ip.globals["splitmix_state"] = st_mix["seeded"]
+                ip.globals[MIX] = st_mix["seeded"]
                 return None
             if nm == "splitmix64":
-                seeded = ip.globals.get("splitmix_state", st_mix["seeded"])
+                seeded = ip.globals.get(MIX, st_mix["seeded"])
                 if st_mix["seeded"] is None and isinstance(seeded, str) and seeded.startswith("param:"):
                     st_mix["seeded"] = seeded
                 st_mix["k"] += 1
@@ -309,7 +334,7 @@ def rules(rep, m):
         path = "; ".join("%s is %s" % (c_, d_) for c_, d_ in ip.taken) or "the only path"
         # a direct store to the mixer state counts as seeding it
         for ef in ip.effects:
-            if ef[0] == "store" and ef[1] == "splitmix_state" and st_mix["seeded"] is None:
+            if ef[0] == "store" and ef[1] == MIX and st_mix["seeded"] is None:
                 st_mix["seeded"] = ef[2]
         first = st_mix["sfc"][0] if st_mix["sfc"] else {w: ip.globals.get("prng_state." + w) for w in "abcd"}
         r3.instance("[%s] state words at the first generator step: %s; mixer seeded with %s; %d outputs discarded" %
@@ -342,7 +367,7 @@ def rules(rep, m):
     if smf is not None:
         smx = FuncCtx(m, smf)
         st = [(smx.canon(l), smx.canon(r)) for l, r, k, n in inv.stores(smf)]
-        if st != [("splitmix_state", smf.params[0]["name"])]:
+        if st != [(MIX, smf.params[0]["name"])]:
             rep.finding(r3, smf.name, "bootstrap:splitmix-init", "splitmix_initialize stores %s" % st, where=m.rel(smf.where))
             r3.fail()
         else:
@@ -354,7 +379,10 @@ def rules(rep, m):
     csx = FuncCtx(m, cs)
     rv = [csx.canon(kids(x)[0]) for x in walk(cs.body) if x["kind"] == "ReturnStmt"]
     ist = {cx.canon(l): cx.canon(r) for l, r, k, n in inv.stores(init)}
-    if rv != ["initial_seed"] or ist.get("initial_seed") != seed:
+    # the remembered seed: a global object (or a member of one) that the seeding routine sets to its argument
+    def global_lvalue(t):
+        return bool(re.fullmatch(r"[A-Za-z_]\w*(\.[A-Za-z_]\w*)*", t or "")) and any(g_.split("@")[0] == t.split(".")[0] for g_ in m.globals)
+    if len(rv) != 1 or not global_lvalue(rv[0]) or rv[0] == MIX or ist.get(rv[0]) != seed:
         rep.finding(r3, cs.name, "seed-query", "the seed query does not return the seed given to the last initialise",
                     where=m.rel(cs.where))
         r3.fail()
@@ -363,7 +391,7 @@ def rules(rep, m):
     # who writes the generator state: only the generator step, the seeding function and terminate
     r4 = rep.rule("R-C15-4", "the 256-bit generator state is written only by the generator step, the seeding function and "
                   "terminate; every sampler obtains randomness only through the generator step", floor=3)
-    for g in ("prng_state@cmb_random.c", "splitmix_state@cmb_random.c"):
+    for g in ("prng_state@cmb_random.c", "%s@cmb_random.c" % MIXG):
         if g not in m.globals:
             raise AnalysisBroken("generator state %s not found" % g)
         for fk in sorted(written_by.get(g, ())):
@@ -410,11 +438,12 @@ def rules(rep, m):
     tmp = S64.add(S64.add(A, B), D)
     ref_sfc = {"a": S64.bitop("^", B, S64.shr(B, 11)), "b": S64.add(C, S64.shl(C, 3)),
                "c": S64.add(S64.atom(("rotl", C, 24)), tmp), "d": S64.add(D, S64.const(1)), "return": tmp}
-    Z0 = S64.add(S64.atom("splitmix_state"), S64.const(0x9e3779b97f4a7c15))
+    MIXK = MIX.split(".")[-1]
+    Z0 = S64.add(S64.atom(MIXK), S64.const(0x9e3779b97f4a7c15))
     z1 = S64.mul(S64.bitop("^", Z0, S64.shr(Z0, 30)), S64.const(0xbf58476d1ce4e5b9))
     z2 = S64.mul(S64.bitop("^", z1, S64.shr(z1, 27)), S64.const(0x94d049bb133111eb))
-    ref_mix = {"splitmix_state": Z0, "return": S64.bitop("^", z2, S64.shr(z2, 31))}
-    for fname, prefix, ref in (("cmb_random_sfc64", "prng_state", ref_sfc), ("splitmix64", "splitmix_state", ref_mix)):
+    ref_mix = {MIXK: Z0, "return": S64.bitop("^", z2, S64.shr(z2, 31))}
+    for fname, prefix, ref in (("cmb_random_sfc64", "prng_state", ref_sfc), ("splitmix64", MIXG, ref_mix)):
         f = m.need(fname)
         try:
             sv = S64.Sym(f, field_state(prefix)).run()
